@@ -195,6 +195,9 @@ def run(loader, R, tier):
                     % (short(f["qn"]), short(K), why))
     R.floor("construction sites of Max/Min/Xor", nsites, 4)
 
+    # ---------------------------------------------------------------- R4.4
+    merge_discipline(prog, R)
+
     # ---------------------------------------------------------------- R4.3
     # complementary literals: x together with Not(x) must merge whichever
     # operand brought them in (directly or through a nested And/Or)
@@ -202,10 +205,118 @@ def run(loader, R, tier):
     complementary_probe(prog, R, "R4.3")
 
 
+def merge_discipline(prog, R):
+    """R4.4: the caller's term dictionary (a non-const reference parameter of
+    Mul's / Add's static helpers) is only extended through find-or-merge: a
+    raw insertion of a key is allowed only where that very key has just been
+    looked up and found absent.  A raw (range) insertion silently keeps the
+    old exponent/coefficient of a key that is already present, so the result
+    depends on the order in which the operands arrived."""
+    from selib import sym as _sym
+    R.rule("R4.4", "a term enters the caller's Mul/Add dictionary raw only "
+                   "under a failed look-up of that key; otherwise it is "
+                   "merged")
+    DICTS = {"SymEngine::Mul": "std::map<SymEngine::RCP<const SymEngine::Basic>, SymEngine::RCP<const SymEngine::Basic>",
+             "SymEngine::Add": "std::unordered_map<SymEngine::RCP<const SymEngine::Basic>, SymEngine::RCP<const SymEngine::Number>"}
+    nraw = 0
+    nfun = 0
+    for u, f in sorted(prog.functions.items(), key=lambda kv: kv[1]["qn"]):
+        cls = f.get("cls")
+        if cls not in DICTS or not f.get("body") or f.get("dependent"):
+            continue
+        dps = [p["n"] for p in f.get("params", ())
+               if DICTS[cls] in p["t"].replace("const SymEngine::RCP", "SymEngine::RCP")
+               .replace("SymEngine::RCP<SymEngine", "SymEngine::RCP<const SymEngine")
+               or (("map_basic_basic" in p["t"] or "umap_basic_num" in p["t"]))]
+        dps = [p["n"] for p in f.get("params", ())
+               if p["n"] in dps and p["t"].rstrip().endswith("&")
+               and not p["t"].rstrip().endswith("&&")
+               and not p["t"].lstrip().startswith("const ")]
+        if not dps:
+            continue
+        nfun += 1
+        # iterators bound to d.find(key)
+        finds = {}
+        for n in walk(f["body"]):
+            if n.get("k") == "decl":
+                for v in n.get("v", ()):
+                    i = v.get("i")
+                    while i is not None and i.get("k") in ("cast", "ctor") \
+                            and len(i.get("a", ())) == 1:
+                        i = i["a"][0]
+                    if i is not None and i.get("k") == "mcall" \
+                            and i.get("n") == "find" \
+                            and (i.get("o") or {}).get("n") in dps \
+                            and i.get("a"):
+                        finds[v["n"]] = (i["o"]["n"], show(i["a"][0]))
+
+        def cb(n, guards, line, f=f, dps=dps, finds=finds):
+            nonlocal nraw
+            d = key = None
+            if n.get("k") == "call" and n.get("n") == "insert" \
+                    and len(n.get("a", ())) == 3 \
+                    and n["a"][0].get("k") == "ref" \
+                    and n["a"][0].get("n") in dps:
+                d, key = n["a"][0]["n"], show(n["a"][1])
+            elif n.get("k") == "mcall" and n.get("n") in (
+                    "insert", "emplace", "insert_or_assign", "try_emplace") \
+                    and (n.get("o") or {}).get("k") == "ref" \
+                    and n["o"].get("n") in dps:
+                d = n["o"]["n"]
+                key = show(n["a"][0]) if len(n.get("a", ())) == 1 else None
+                if len(n.get("a", ())) == 2 and n.get("n") == "insert":
+                    key = None              # (begin, end): a range
+            elif n.get("k") in ("bin", "op") and n.get("op") == "=" \
+                    and n.get("a") and n["a"][0].get("k") == "op" \
+                    and n["a"][0].get("op") == "[]" \
+                    and n["a"][0]["a"][0].get("k") == "ref" \
+                    and n["a"][0]["a"][0].get("n") in dps:
+                d, key = n["a"][0]["a"][0]["n"], show(n["a"][0]["a"][1])
+            if d is None:
+                return
+            nraw += 1
+            k = "%s:%s@%s" % (short(f["qn"]), d, n.get("l"))
+            ok = False
+            for g in _sym.flatten_guards(guards):
+                if g[0] == "case":
+                    continue
+                c, pol = g
+                txt = show(c)
+                if c.get("k") in ("bin", "op") and c.get("op") in ("==", "!=") \
+                        and "end()" in txt and (c["op"] == "==") == bool(pol):
+                    for itn, (dd, kk) in finds.items():
+                        if dd == d and key is not None and kk == key \
+                                and any(y.get("k") == "ref"
+                                        and y.get("n") == itn
+                                        for y in walk(c)):
+                            ok = True
+                    if key is not None and ("%s.find(%s)" % (d, key)) in txt:
+                        ok = True
+            R.instance("R4.4", k, sample={"site": k, "key": key,
+                                          "under_failed_lookup": ok})
+            if not ok:
+                R.violation(
+                    "R4.4", "%s:%s" % (short(f["qn"]), d),
+                    prog.loc(f, n.get("l")),
+                    "%s inserts %s into the caller's dictionary `%s` "
+                    "without a failed look-up of that key (`%s`): if the "
+                    "key is already present its old exponent/coefficient "
+                    "is kept and the new factor is dropped, so the result "
+                    "depends on the order of the operands" % (
+                        short(f["qn"]),
+                        "a whole range" if key is None else "`%s`" % key,
+                        d, show(n)[:60]))
+        _sym.visit_guarded(f["body"], cb)
+    R.floor("functions merging into a caller's dictionary", nfun, 4)
+    R.floor("raw insertions into a caller's dictionary", nraw, 4)
+
+
 MANIFEST = dict(
     technique="type rule on the class table + intraprocedural flow rule "
               "(all writers of the constructed vector) at every "
-              "construction site",
+              "construction site + establish-then-use typestate of the "
+              "complementary-literal probe + guard rule (failed look-up "
+              "dominates every raw insertion into a caller's dictionary)",
     text="Decides one necessary condition of order independence: the n-ary "
          "commutative nodes store operands in identity-keyed containers "
          "(Add, Mul, And, Or), and every Max/Min/Xor is built from an "
@@ -213,9 +324,12 @@ MANIFEST = dict(
          "a function of the operand multiset for all permutations and "
          "bracketings; and that and_or<> looks for complementary literals "
          "over the flattened container it constructs from, after the last "
-         "insertion (so the merge does not depend on grouping). Does not "
-         "decide the other merge rules (coefficient collection, power "
-         "combination), which depend on run-time values.",
+         "insertion (so the merge does not depend on grouping); and that a "
+         "term enters the caller's Mul/Add dictionary raw only under a "
+         "failed look-up of that key (otherwise it is merged). Does not "
+         "decide what the merge computes (coefficient collection, power "
+         "combination, which bases are folded), which depends on run-time "
+         "values.",
     note="Together with C01 (hash) and C02 (__cmp__) this makes container "
          "order canonical.",
     ref="§2 C04",
